@@ -3,7 +3,7 @@
 P=$1; shift
 cd /repo || exit 9
 if ! git diff --quiet; then echo "repo dirty"; exit 9; fi
-git apply "$P" 2>/dev/null || { git reset -q --hard HEAD; patch -p1 -F3 -s < "$P" </dev/null >/dev/null 2>&1 && ! ls $(git ls-files -m | sed 's/$/.rej/') >/dev/null 2>&1; } || { echo "APPLY-FAILED $P"; git reset -q --hard HEAD; git clean -qfd crates; exit 8; }
+git apply "$P" 2>/dev/null || { git reset -q --hard HEAD; patch -p1 -F3 -s < "$P" >/dev/null 2>&1 && ! ls $(git ls-files -m | sed 's/$/.rej/') >/dev/null 2>&1; } || { echo "APPLY-FAILED $P"; git reset -q --hard HEAD; git clean -qfd crates; exit 8; }
 find crates -name "*.orig" -delete 2>/dev/null
 for prop in "$@"; do
   out=$(cd /verif && ./check $prop --tier ${TIER:-quick} 2>&1); rc=$?
